@@ -384,6 +384,29 @@ def iterative_images(rep, r, n):
             except Exception as e:                              # noqa: BLE001
                 rep.violation(f'iterative-model-image-raises:second-run:{type(e).__name__}', f'IterativePSFPhotometry second run raised {e!r}', {'sources': srcs, 'mode': r_mode})
                 continue
+        # psf_shape left at None: every source is rendered on the bounding box of the model (the documented default), whatever sub_shape
+        # the iterations used to subtract sources (seed C18-r12 substituted sub_shape)
+        from photutils.datasets import make_model_image as mmi_
+        with warnings.catch_warnings():
+            warnings.simplefilter('ignore')
+            try:
+                it3 = IterativePSFPhotometry(CircularGaussianPRF(fwhm=2.5), (5, 5), finder=DAOStarFinder(20.0, 2.5), aperture_radius=4, mode=r_mode,
+                                             grouper=SourceGrouper(6.0), sub_shape=(5, 5), maxiters=2, progress_bar=False)
+                t3 = it3(img, init_params=Table({'x': [s_[0] for s_ in srcs], 'y': [s_[1] for s_ in srcs]}))
+                dflt = it3.make_model_image(img.shape)
+                resd = it3.make_residual_image(img)
+                ref3 = mmi_(img.shape, CircularGaussianPRF(fwhm=2.5), Table({'x_0': np.asarray(t3['x_fit'], float), 'y_0': np.asarray(t3['y_fit'], float),
+                                                                               'flux': np.asarray(t3['flux_fit'], float)}))
+            except Exception as e:                              # noqa: BLE001
+                rep.violation(f'iterative-model-image-raises:default-psf_shape:{type(e).__name__}', f'IterativePSFPhotometry(sub_shape=(5, 5)).make_model_image(shape) raised {e!r}',
+                              {'sources': srcs, 'mode': r_mode})
+                continue
+        rep.count('iterative-default-psf_shape')
+        if not (np.allclose(dflt, ref3, rtol=0, atol=1e-9) and np.allclose(resd, img - ref3, rtol=0, atol=1e-9)):
+            rep.violation('iterative-model-image-default-window', f'IterativePSFPhotometry(sub_shape=(5, 5)): make_model_image(shape) without psf_shape differs from the superposition of '
+                          f'the fitted sources on their bounding boxes by {float(np.abs(dflt - ref3).max()):.3g} ({int(np.count_nonzero(dflt))} non-zero pixels vs '
+                          f'{int(np.count_nonzero(ref3))})', {'sources': srcs, 'mode': r_mode, 'sub_shape': [5, 5]})
+            continue
         for kind, im in again:
             exp = {'bkg': f_bk, 'no': f_no, 'res': img2 - f_no}[kind]
             if not np.allclose(im, exp, rtol=0, atol=1e-9):
